@@ -25,7 +25,8 @@ theorem dropHandle_vinv (m : Mem) (E : List (Option Emb)) (hv : VInv m E) (ft : 
 structure VOpen (m0 : Mem) (E : List (Option Emb)) : Prop extends VBase m0 E where
   pi0 : m0.pendingInserts = 0
   pv : m0.pVec.getD [] = vecL m0
-  g : m0.vecEnabled = m0.vecManifest
+  /-- (only needed when nothing but `Lex` records is replayed; the repaired recovery switches vectors on before the manifest exists) -/
+  g : OnlyLex m0.pending → m0.vecEnabled = m0.vecManifest
   lex : m0.lexEnabled = true
   b : vecL m0 ≠ [] → m0.vecEnabled = true
   b' : vecL m0 ≠ [] → m0.pVecMan = true
@@ -46,7 +47,7 @@ theorem openLoad_vopen (m : Mem) (E : List (Option Emb)) (hv : VInv m E) : VOpen
     nodup := by rw [hvl]; exact hv.nodup
     pi0 := rfl
     pv := by rw [hvl]; exact hv.pv
-    g := rfl
+    g := fun _ => rfl
     lex := rfl
     b := fun h => by rw [hvl] at h; exact hv.b' h
     b' := fun h => by rw [hvl] at h; exact hv.b' h
@@ -55,15 +56,28 @@ theorem openLoad_vopen (m : Mem) (E : List (Option Emb)) (hv : VInv m E) : VOpen
 theorem VOpen.quiet {m0 : Mem} {E : List (Option Emb)} (h : VOpen m0 E) (hq : OnlyLex m0.pending) : VInv m0 E :=
   { toVBase := h.toVBase
     pi := by rw [h.pi0, countInserts_onlyLex _ hq]
-    pv := h.pv, g := h.g, lex := h.lex, d := fun _ => hq, b := h.b, b' := h.b'
+    pv := h.pv, g := h.g hq, lex := h.lex, d := fun _ => hq, b := h.b, b' := h.b'
     a := by rw [pendEmbs_onlyLex _ hq]; rintro ⟨x, hx, _⟩; cases hx }
 
-theorem persistSketch_vle (m : Mem) : VLe m.persistSketch m := VLe.of_eq rfl rfl rfl rfl rfl rfl rfl rfl rfl (Or.inl rfl)
+theorem pendingHasEmb_iff (recs : List (Nat × Entry)) :
+    pendingHasEmb recs = true ↔ ∃ x ∈ pendEmbs recs, x.isSome = true := by
+  induction recs with
+  | nil => simp [pendingHasEmb, pendEmbs]
+  | cons r rs ih =>
+    have hc : pendingHasEmb (r :: rs) = (r.2.hasEmb || pendingHasEmb rs) := by
+      simp [pendingHasEmb]
+    rw [hc, Bool.or_eq_true, ih]
+    obtain ⟨sq, e⟩ := r
+    cases e with
+    | lex => simp [pendEmbs, insEmb, Entry.hasEmb]
+    | tombstone t => simp [pendEmbs, insEmb, Entry.hasEmb]
+    | insert i => simp [pendEmbs, insEmb, Entry.hasEmb]
 
-theorem recoverWalCfg_vinv (fix : Bool) (m0 : Mem) (E : List (Option Emb)) (ho : VOpen m0 E) (ft : Nat)
-    (hA : fix = true ∨ ((∃ x ∈ pendEmbs m0.pending, x.isSome = true) → m0.vecEnabled = true)) :
-    VInv (m0.recoverWalCfg fix ft) E := by
-  unfold Mem.recoverWalCfg
+/-- `recover_wal` of the shared model: all pending records applied, index rebuilt, checkpoint -/
+theorem recoverWal_vinv (m0 : Mem) (E : List (Option Emb)) (ho : VOpen m0 E) (ft : Nat)
+    (hA : (∃ x ∈ pendEmbs m0.pending, x.isSome = true) → m0.vecEnabled = true) :
+    VInv (m0.recoverWal ft) E := by
+  unfold Mem.recoverWal
   split
   · rename_i he
     have hp : m0.pending = [] := by simpa using he
@@ -75,48 +89,20 @@ theorem recoverWalCfg_vinv (fix : Bool) (m0 : Mem) (E : List (Option Emb)) (ho :
     simp only [h1]
     by_cases hd : δ.nonEmpty = true
     · simp only [hd, if_true]
-      refine VInv.congr (m := ((if (fix && !δ.embs.isEmpty && !ma.vecEnabled) = true then ({ ma with vecEnabled := true } : Mem) else ma).rebuildIndexes
-          δ.embs δ.inserted ft).checkpoint) ?_ rfl rfl rfl rfl rfl rfl rfl rfl rfl (Or.inl rfl)
-      refine rebuilt_vinv m0 E ma δ ha _ ?_ ?_ ?_ ?_ δ.inserted ft
-      · split <;> rfl
-      · split <;> rfl
-      · split
-        · exact hlex.trans ho.lex
-        · exact hlex.trans ho.lex
-      · intro hor
-        by_cases hc : (fix && !δ.embs.isEmpty && !ma.vecEnabled) = true
-        · simp only [hc, if_true]
-        · have hc' : (fix && !δ.embs.isEmpty && !ma.vecEnabled) = false := by simpa using hc
-          simp only [hc', Bool.false_eq_true, if_false]
-          rcases hor with h | h
-          · rcases hA with hfix | hA
-            · -- the repair: the condition failed although embeddings were replayed, so vectors are on
-              cases hme : ma.vecEnabled with
-              | true => rfl
-              | false =>
-                exfalso
-                have : δ.embs.isEmpty = false := by
-                  cases hx : δ.embs with
-                  | nil => exact absurd hx h
-                  | cons _ _ => rfl
-                simp [hfix, this, hme] at hc'
-            · rw [hve]; exact hA (ha.embsSome h)
-          · rw [hve]; apply ho.b
-            intro h0
-            have := ha.sub
-            rw [h0] at this
-            exact h (List.eq_nil_of_sublist_nil this)
+      have hr := rebuilt_vinv m0 E ma δ ha ma rfl rfl (hlex.trans ho.lex) (by
+        rintro (h | h)
+        · rw [hve]; exact hA (ha.embsSome h)
+        · rw [hve]; apply ho.b
+          intro h0
+          have := ha.sub
+          rw [h0] at this
+          exact h (List.eq_nil_of_sublist_nil this)) δ.inserted ft
+      -- whatever follows the rebuild (sketch track, footer) touches nothing the invariant looks at
+      generalize ma.rebuildIndexes δ.embs δ.inserted ft = A at hr ⊢
+      exact hr.congr rfl rfl rfl rfl rfl rfl rfl rfl rfl (Or.inl rfl)
     · have hd' : δ.nonEmpty = false := by simpa using hd
       simp only [hd', Bool.false_eq_true, if_false]
       have hq : OnlyLex m0.pending := hne hd'
-      have hembs : δ.embs = [] := by
-        cases hx : δ.embs with
-        | nil => rfl
-        | cons a as =>
-          obtain ⟨x, hx', _⟩ := ha.embsSome (by simp [hx])
-          rw [pendEmbs_onlyLex _ hq] at hx'; cases hx'
-      have hc : (fix && !δ.embs.isEmpty && !ma.vecEnabled) = false := by simp [hembs]
-      simp only [hc, Bool.false_eq_true, if_false]
       have h1v : VLe ma m0 := applied_onlyLex_vle m0 true ma δ h1 ho.ok hq
       have hq1 : OnlyLex (ma.flushTantivy ft).pending := by
         obtain ⟨l, hl, hpl⟩ := (flushTantivy_skel ma ft).pending
@@ -125,12 +111,14 @@ theorem recoverWalCfg_vinv (fix : Bool) (m0 : Mem) (E : List (Option Emb)) (ho :
         rcases List.mem_append.mp hr with hr | hr
         · exact hq r hr
         · exact hl r hr
-      have hq2 : OnlyLex (ma.flushTantivy ft).persistSketch.pending := hq1
-      exact (checkpoint_vle _ hq2).vinv ((VLe.trans (persistSketch_vle _) (VLe.trans (flushTantivy_vle ma ft) h1v)).vinv (ho.quiet hq))
+      have hvi : VInv (ma.flushTantivy ft).checkpoint E :=
+        (checkpoint_vle _ hq1).vinv ((VLe.trans (flushTantivy_vle ma ft) h1v).vinv (ho.quiet hq))
+      generalize ma.flushTantivy ft = A at hvi ⊢
+      exact hvi.congr rfl rfl rfl rfl rfl rfl rfl rfl rfl (Or.inl rfl)
 
-theorem recoverWalCfg_clean (fix : Bool) (m0 : Mem) (ft : Nat) (hc : m0.dirty = false) (hok : AllOk m0.frames.length m0.pending) :
-    (m0.recoverWalCfg fix ft).dirty = false := by
-  unfold Mem.recoverWalCfg
+theorem recoverWal_clean (m0 : Mem) (ft : Nat) (hc : m0.dirty = false) (hok : AllOk m0.frames.length m0.pending) :
+    (m0.recoverWal ft).dirty = false := by
+  unfold Mem.recoverWal
   split
   · unfold Mem.flushTantivy
     split
@@ -139,6 +127,56 @@ theorem recoverWalCfg_clean (fix : Bool) (m0 : Mem) (ft : Nat) (hc : m0.dirty = 
   · obtain ⟨ma, δ, h1, _, _, _⟩ := applyRecords_view m0 m0.pending true hok
     simp only [h1]
     rfl
+
+theorem enableVecForReplay_fields (fix : Bool) (m0 : Mem) :
+    (m0.enableVecForReplay fix).frames = m0.frames ∧ (m0.enableVecForReplay fix).pending = m0.pending ∧
+    (m0.enableVecForReplay fix).pendingInserts = m0.pendingInserts ∧ (m0.enableVecForReplay fix).dirty = m0.dirty ∧
+    (m0.enableVecForReplay fix).vec = m0.vec := by
+  unfold Mem.enableVecForReplay
+  split <;> exact ⟨rfl, rfl, rfl, rfl, rfl⟩
+
+theorem enableVecForReplay_vopen (fix : Bool) (m0 : Mem) (E : List (Option Emb)) (ho : VOpen m0 E) :
+    VOpen (m0.enableVecForReplay fix) E ∧
+    (fix = true → (∃ x ∈ pendEmbs m0.pending, x.isSome = true) → (m0.enableVecForReplay fix).vecEnabled = true) := by
+  unfold Mem.enableVecForReplay
+  split
+  · rename_i hc
+    simp only [Bool.and_eq_true, Bool.not_eq_true'] at hc
+    refine ⟨?_, fun _ _ => rfl⟩
+    exact { ok := ho.ok, lenE := ho.lenE, pend := ho.pend, mem := ho.mem, nodup := ho.nodup, pi0 := ho.pi0, pv := ho.pv
+            g := fun hq => by
+              exfalso
+              obtain ⟨x, hx, _⟩ := (pendingHasEmb_iff _).mp hc.1.2
+              rw [pendEmbs_onlyLex _ hq] at hx; cases hx
+            lex := ho.lex, b := fun _ => rfl, b' := ho.b', clean := ho.clean }
+  · rename_i hc
+    refine ⟨ho, fun hfix hex => ?_⟩
+    cases hve : m0.vecEnabled with
+    | true => rfl
+    | false =>
+      exfalso; apply hc
+      simp [hfix, (pendingHasEmb_iff _).mpr hex, hve]
+
+theorem recoverWalCfg_vinv (fix : Bool) (m0 : Mem) (E : List (Option Emb)) (ho : VOpen m0 E) (ft : Nat)
+    (hA : fix = true ∨ ((∃ x ∈ pendEmbs m0.pending, x.isSome = true) → m0.vecEnabled = true)) :
+    VInv (m0.recoverWalCfg fix ft) E := by
+  obtain ⟨h1, h2⟩ := enableVecForReplay_vopen fix m0 E ho
+  obtain ⟨_, hp, _, _, _⟩ := enableVecForReplay_fields fix m0
+  refine recoverWal_vinv _ E h1 ft ?_
+  rw [hp]
+  intro hex
+  rcases hA with hfix | hA
+  · exact h2 hfix hex
+  · have := hA hex
+    unfold Mem.enableVecForReplay
+    split
+    · rfl
+    · exact this
+
+theorem recoverWalCfg_clean (fix : Bool) (m0 : Mem) (ft : Nat) (hc : m0.dirty = false) (hok : AllOk m0.frames.length m0.pending) :
+    (m0.recoverWalCfg fix ft).dirty = false := by
+  obtain ⟨hf, hp, _, hd, _⟩ := enableVecForReplay_fields fix m0
+  exact recoverWal_clean _ ft (by rw [hd]; exact hc) (by rw [hf, hp]; exact hok)
 
 theorem loadTracks_vopen (m0 : Mem) (E : List (Option Emb)) (ho : VOpen m0 E) : VOpen m0.loadTracks E :=
   { ok := ho.ok, lenE := ho.lenE, pend := ho.pend, mem := ho.mem, nodup := ho.nodup, pi0 := ho.pi0, pv := ho.pv, g := ho.g,
@@ -158,12 +196,8 @@ theorem openFromCfg_vinv (fix : Bool) (m : Mem) (E : List (Option Emb)) (hv : VI
   exact ⟨recoverWalCfg_vinv fix m.openLoad.loadTracks E ho ft hA', recoverWalCfg_clean fix m.openLoad.loadTracks ft rfl ho.ok⟩
 
 theorem recoverWal_eq (m : Mem) (ft : Nat) : m.recoverWal ft = m.recoverWalCfg false ft := by
-  unfold Mem.recoverWal Mem.recoverWalCfg
-  split
-  · rfl
-  · cases applyRecords m m.pending true with
-    | none => rfl
-    | some p => simp
+  unfold Mem.recoverWalCfg Mem.enableVecForReplay
+  simp
 
 theorem openFrom_eq (m : Mem) (ft : Nat) : m.openFrom ft = m.openFromCfg false ft := by
   unfold Mem.openFrom Mem.openFromCfg
@@ -360,25 +394,10 @@ theorem runCfg_vinv (m : Mem) (E : List (Option Emb)) (ops : List Op) (hv : VInv
 
 theorem recoverWalCfg_spec (fix : Bool) (m1 : Mem) (ft : Nat) (hok : AllOk m1.frames.length m1.pending) (hpi : m1.pendingInserts = 0) :
     Quiet (m1.recoverWalCfg fix ft) ∧ (m1.recoverWalCfg fix ft).frames.map view = sApply (m1.frames.map view) m1.pending := by
-  unfold Mem.recoverWalCfg
-  split
-  · rename_i he
-    have hp : m1.pending = [] := by simpa using he
-    have hs := flushTantivy_skel m1 ft
-    have hq : Quiet m1 := ⟨(by rw [hp]; intro r hr; cases hr), hpi⟩
-    exact ⟨Quiet.of_skel hs hq, by rw [hs.frames, hp]; rfl⟩
-  · obtain ⟨ma, δ, h1, hv, _, _⟩ := applyRecords_view m1 m1.pending true hok
-    simp only [h1]
-    have hmb : (if (fix && !δ.embs.isEmpty && !ma.vecEnabled) = true then ({ ma with vecEnabled := true } : Mem) else ma).frames = ma.frames := by
-      split <;> rfl
-    generalize (if (fix && !δ.embs.isEmpty && !ma.vecEnabled) = true then ({ ma with vecEnabled := true } : Mem) else ma) = mb at hmb ⊢
-    refine ⟨⟨?_, rfl⟩, ?_⟩
-    · intro r hr; cases hr
-    · show ((if δ.nonEmpty = true then mb.rebuildIndexes δ.embs δ.inserted ft else mb.flushTantivy ft)).frames.map view = _
-      rw [← hv, ← hmb]
-      split
-      · exact (rebuildIndexes_skel _ _ _ ft).frames
-      · exact (flushTantivy_skel _ ft).frames
+  obtain ⟨hf, hp, hpi', _, _⟩ := enableVecForReplay_fields fix m1
+  have := recoverWal_spec (m1.enableVecForReplay fix) ft (by rw [hf, hp]; exact hok) (by rw [hpi']; exact hpi)
+  rw [hf, hp] at this
+  exact this
 
 theorem crashCfg_sim (fix : Bool) (m : Mem) (ft : Nat) (hi : Inv m) :
     Quiet (m.crashCfg fix ft).1 ∧ abs (m.crashCfg fix ft).1 = abs m ∧ (m.crashCfg fix ft).1.frames.map view = abs m := by
